@@ -266,6 +266,21 @@ impl DiskIO {
                 )));
             }
 
+            #[cfg(feoxdb_verif)]
+            if crate::verif::force_plain_io() {
+                return Ok(Self {
+                    ring: None,
+                    next_user_data: 0,
+                    write_indeterminate: AtomicBool::new(false),
+                    journal_generation: AtomicU64::new(0),
+                    journal_slot: AtomicUsize::new(ALLOCATION_JOURNAL_SLOTS - 1),
+                    file_identity,
+                    _file: file,
+                    fd,
+                    _use_direct_io: use_direct_io,
+                });
+            }
+
             // Create io_uring instance
             let ring: Option<IoUring> = IoUring::builder()
                 .setup_sqpoll(IOURING_SQPOLL_IDLE_MS)
@@ -333,6 +348,17 @@ impl DiskIO {
     pub fn read_sectors_sync(&self, sector: u64, count: u64) -> Result<Vec<u8>> {
         let size = (count * FEOX_BLOCK_SIZE as u64) as usize;
         let offset = sector * FEOX_BLOCK_SIZE as u64;
+
+        #[cfg(all(feoxdb_verif, unix))]
+        {
+            let _ = crate::verif::io_before(
+                self.fd,
+                crate::verif::IoKind::Read,
+                offset,
+                &[0u8; 0][..],
+            );
+            crate::verif::io_after(self.fd, crate::verif::IoKind::Read, offset, &[], size != 0);
+        }
 
         #[cfg(unix)]
         {
@@ -441,6 +467,15 @@ impl DiskIO {
         self.ensure_writable()?;
         let offset = sector * FEOX_BLOCK_SIZE as u64;
 
+        #[cfg(all(feoxdb_verif, unix))]
+        let verif_decision =
+            crate::verif::io_before(self.fd, crate::verif::IoKind::Write, offset, data);
+        #[cfg(all(feoxdb_verif, unix))]
+        if let crate::verif::IoDecision::FailBefore(errno) = verif_decision {
+            crate::verif::io_after(self.fd, crate::verif::IoKind::Write, offset, data, false);
+            return Err(FeoxError::IoError(io::Error::from_raw_os_error(errno)));
+        }
+
         #[cfg(unix)]
         {
             let written = if self._use_direct_io {
@@ -520,11 +555,27 @@ impl DiskIO {
             }
         }
 
+        #[cfg(all(feoxdb_verif, unix))]
+        {
+            if let crate::verif::IoDecision::FailAfter(errno) = verif_decision {
+                crate::verif::io_after(self.fd, crate::verif::IoKind::Write, offset, data, false);
+                return Err(FeoxError::IoError(io::Error::from_raw_os_error(errno)));
+            }
+            crate::verif::io_after(self.fd, crate::verif::IoKind::Write, offset, data, true);
+        }
+
         Ok(())
     }
 
     pub fn flush(&self) -> Result<()> {
         self.ensure_writable()?;
+        #[cfg(all(feoxdb_verif, unix))]
+        let verif_decision = crate::verif::io_before(self.fd, crate::verif::IoKind::Fsync, 0, &[]);
+        #[cfg(all(feoxdb_verif, unix))]
+        if let crate::verif::IoDecision::FailBefore(errno) = verif_decision {
+            crate::verif::io_after(self.fd, crate::verif::IoKind::Fsync, 0, &[], false);
+            return Err(FeoxError::IoError(io::Error::from_raw_os_error(errno)));
+        }
         #[cfg(unix)]
         unsafe {
             if libc::fsync(self.fd) == -1 {
@@ -535,6 +586,15 @@ impl DiskIO {
         #[cfg(not(unix))]
         {
             self._file.sync_all().map_err(FeoxError::IoError)?;
+        }
+
+        #[cfg(all(feoxdb_verif, unix))]
+        {
+            if let crate::verif::IoDecision::FailAfter(errno) = verif_decision {
+                crate::verif::io_after(self.fd, crate::verif::IoKind::Fsync, 0, &[], false);
+                return Err(FeoxError::IoError(io::Error::from_raw_os_error(errno)));
+            }
+            crate::verif::io_after(self.fd, crate::verif::IoKind::Fsync, 0, &[], true);
         }
 
         Ok(())
@@ -773,6 +833,34 @@ impl DiskIO {
         }
 
         for chunk in writes.chunks(IOURING_MAX_BATCH) {
+            #[cfg(feoxdb_verif)]
+            {
+                let mut verif_failure = None;
+                for (sector, data) in chunk {
+                    let offset = sector * FEOX_BLOCK_SIZE as u64;
+                    let decision = crate::verif::io_before(
+                        self.fd,
+                        crate::verif::IoKind::UringWrite,
+                        offset,
+                        data.as_slice(),
+                    );
+                    if let crate::verif::IoDecision::FailBefore(errno) = decision {
+                        verif_failure.get_or_insert(errno);
+                    }
+                }
+                if let Some(errno) = verif_failure {
+                    for (sector, data) in chunk {
+                        crate::verif::io_after(
+                            self.fd,
+                            crate::verif::IoKind::UringWrite,
+                            sector * FEOX_BLOCK_SIZE as u64,
+                            data.as_slice(),
+                            false,
+                        );
+                    }
+                    return Err(FeoxError::IoError(io::Error::from_raw_os_error(errno)));
+                }
+            }
             let mut buffers = InFlightBuffers::with_capacity(chunk.len());
             for (_sector, data) in chunk {
                 if self._use_direct_io {
